@@ -461,6 +461,12 @@ def run(ctx, with_contradiction=True):
         return a[0] == 'fail' and a[1].startswith('each(%s(' % what)
     rm = find(lambda a: _empty_test(a, 'remainder'))
     if not lo:
+        # .. or the pairs are taken by hand and a flag remembers an element whose partner is missing: under "the partner's next() is None"
+        # (inside the loop over the chunks) the decoder always rejects
+        lo = [r for r in rows if r['eff'] != 'bypass' and r['atoms'] == [('const', False)] and
+              any(x[0] == 'fail' and x[1].startswith('each(chunks_exact(') for x in r['ctx']) and
+              all(x[0] in ('fail', 'forall', 'succ') and 'chunks_exact(' in x[1] for x in r['ctx'])]
+    if not lo:
         # .. or the number of whole elements left for the L/R pairs is required to be even: `chunks.len() % 2 == 0`
         import re as _re
         lo = find(lambda a: a[0] == 'cmp' and a[1] == 'Eq' and '0' in (a[2], a[3]) and any(_re.match(r'^\(len\(chunks_exact\(.*\)\) Rem 2\)$', x) for x in (a[2], a[3])))
